@@ -285,9 +285,9 @@ sodium_base642bin(unsigned char * const bin, const size_t bin_maxlen,
     while (b64_pos < b64_len) {
         c = b64[b64_pos];
         if (is_urlsafe) {
-            d = b64_urlsafe_char_to_byte(c);
+            d = b64_urlsafe_char_to_byte((unsigned char) c);
         } else {
-            d = b64_char_to_byte(c);
+            d = b64_char_to_byte((unsigned char) c);
         }
         if (d == 0xFF) {
             if (ignore != NULL && c != 0 && strchr(ignore, c) != NULL) {
